@@ -667,6 +667,7 @@ func init() {
 		ID: "C17", Title: "Chunk merge strategies never lose coverage", Level: "other",
 		Rules: []RuleDef{
 			{Name: "MERGE-STEP", What: "Adjacent and Compressor (splice form or accumulate form, recognised by roles, not names): the merge test compares the accumulated chunk's End with the current Begin; a merge keeps the accumulated Begin and the larger End (compared as whole virtual offsets), removes exactly one element, writes nothing else; Squash = {first Begin, running maximum of End}; Identity returns its argument", Floor: 10, Run: ruleChunkMergeStep},
+			{Name: "RESULT-FROM-LOOP", What: "each merge strategy returns nil or the list its examined loop merged, on every path, and CompressorStrategy returns its merging closure for every threshold: no second implementation, fast path or substitute strategy beside the loop MERGE-STEP proves (added after sixteenth-round seeds C17-o, C17-p)", Floor: 3, Run: ruleResultFromLoop},
 			{Name: "NEAR-CMP", What: "the Compressor's threshold is only ever an operand of a comparison: offset + near overflows for thresholds near MaxInt64 and such a Compressor merges nothing (added for a defect of the unchanged tree)", Floor: 1, Run: ruleNearCmp},
 			{Name: "STRATEGY-BIND", What: "the exported strategies Identity, Adjacent and Squash are initialised with the functions identity, adjacent and squash that MERGE-STEP examines – not with another value of the same type (added after eighth-round seed C17-h: Adjacent bound to CompressorStrategy(0))", Floor: 3, Run: ruleStrategyBind},
 			{Name: "BIT-VOFFSET", What: "every vOffset copy computes File<<16|Block over the whole 48+16 bits (bit domain; shared with C13/C15; under C17 since eighth-round seed C17-g: a mask applied after the shift cuts the file offset to 32 bits and the End comparisons of the strategies go wrong from 4 GiB on)", Floor: 6, Run: ruleVOffset},
